@@ -172,6 +172,9 @@ Section Rec.
     | e :: r => snd (step tbl e) ++ consume_from stop (fst (step tbl e)) r
     end.
   Definition consume (evs : list event) : list rcd := consume_from true [] evs.
+  (* self._inprogress after the events, before stopTestRun *)
+  Definition tbl_after (tbl : list (key * rcd)) (evs : list event) : list (key * rcd) :=
+    fold_left (fun t e => fst (step t e)) evs tbl.
 
   (* ---------- StreamSummary ---------- *)
   Record summary := Summary {
@@ -249,7 +252,7 @@ Arguments r_first {CT}. Arguments r_last {CT}.
 Arguments create {CT}. Arguments hung {CT}.
 Arguments add_bytes {M CT}. Arguments upd {M CT}.
 Arguments step {M CT}. Arguments flush {CT}.
-Arguments consume_from {M CT}. Arguments consume {M CT}.
+Arguments consume_from {M CT}. Arguments consume {M CT}. Arguments tbl_after {M CT}.
 Arguments gather {CT}. Arguments summarize {M CT}.
 Arguments LStartRun {CT}. Arguments LStopRun {CT}. Arguments LTime {CT}. Arguments LTags {CT}.
 Arguments LStartTest {CT}. Arguments LOutcome {CT}. Arguments LStopTest {CT}. Arguments LKeyError {CT}.
